@@ -43,7 +43,9 @@ def generate(rng, tier):
         n = rng.choice([0, 1, 2, 4, 7, 10])
         keys = ["g0", "g1"][:nk]
         gp = list(pools)
-        if rng.random() < 0.15:
+        if rng.random() < 0.12:
+            gp = [[1, True, 0, False, 2, None], ["x", "y", None]]      # equal keys of different types: True == 1, False == 0 (one group each, as in a dict)
+        elif rng.random() < 0.15:
             gp = [[(2020, 12), (2020, 1), (2019, 12), None], [("a", 1), ("a", 0), None]]      # tuple-valued group keys, e.g. (year, month)
         items = [dict({"_tag_": i}, **{k: rng.choice(gp[j]) for j, k in enumerate(keys)}) for i in range(n)]
         for it in items:
